@@ -35,6 +35,39 @@ def order_ok(body, temp_var="temp_path"):
     return c >= 0 and w > c and m is not None and m.start() > w, (m.start() if m else -1), c
 
 
+STEP_PATTERNS = [
+    (0, r"File::create\(\s*&temp_path\s*\)"),
+    (1, r"\.write_all\("),
+    (2, r"\.sync_(?:all|data)\(\)"),
+    (3, r"remove_file\(\s*&?path\s*\)"),
+    (4, r"rename\(\s*&temp_path\s*,\s*path\s*\)"),
+    # anything else that creates, writes, copies, removes or renames a file
+    (5, r"File::create\(|OpenOptions|fs::write\(|fs::copy\(|remove_file\(|fs::rename\(|fs::remove_dir|hard_link\(|set_len\("),
+]
+
+
+def fs_steps(body):
+    """the file-system steps of a save function in source order:
+    0 create temp, 1 write to temp, 2 fsync temp, 3 unlink target, 4 rename temp -> target, 5 other"""
+    found = []
+    taken = []
+    for code, pat in STEP_PATTERNS:
+        for m in re.finditer(pat, body):
+            if any(m.start() < b and m.end() > a for a, b in taken):
+                continue  # already recognised as a more specific step
+            found.append((m.start(), code))
+            taken.append((m.start(), m.end()))
+    found.sort()
+    steps = []
+    for _, c in found:
+        if c == 1 and steps and steps[-1] == 1:
+            continue  # header + body (+ the two arms of `if compress`) are one growing write
+        steps.append(c)
+    if 0 not in steps:
+        raise KeyError("no File::create(&temp_path) in save function")
+    return steps
+
+
 def temp_mode(body):
     m = re.search(r"let\s+temp_path\s*=\s*path\.with_extension\(\s*\"(\w+)\"\s*\)\s*;", body)
     if m:
@@ -114,6 +147,16 @@ def generate(repo):
         sync = all(re.search(r"sync_(all|data)\(\)", b[c:r]) is not None for b, c, r in ((b1, c1, r1), (b2, c2, r2)) if r > 0)
         return (m1, e1, ok1 and ok2, sync)
     item("save_protocol", (0, "tmp", True, False), protocol)
+
+    def steps_v3():
+        _, b = find_fn(snap, "save_v3_with_compression")
+        return fs_steps(b)
+    item("save_steps_v3", [0, 1, 4], steps_v3)
+
+    def steps_q():
+        _, b = find_fn(lib, "save_snapshot_compressed")
+        return fs_steps(b)
+    item("save_steps_quant", [0, 1, 4], steps_q)
 
     item("tt_min_dim", 256, lambda: int_expr(find_const(emb, "TT_MIN_DIMENSION")))
 
@@ -220,6 +263,9 @@ def generate(repo):
     text += "Definition gen_temp_ext : list N := %s.\n" % bstr(te)
     text += "Definition gen_save_order_ok : bool := %s.   (* create temp < write < rename(temp, path) *)\n" % ("true" if tok else "false")
     text += "Definition gen_sync_before_rename : bool := %s.\n" % ("true" if tsync else "false")
+    text += "(* file-system steps in source order: 0 create temp, 1 write temp, 2 fsync temp, 3 unlink target, 4 rename temp -> target, 5 other *)\n"
+    text += "Definition gen_save_steps_v3 : list N := %s.\n" % nlist(out["save_steps_v3"])
+    text += "Definition gen_save_steps_quant : list N := %s.\n" % nlist(out["save_steps_quant"])
     text += "(* tensor_store/src/embedding_slab.rs CompressedEmbedding::from_dense *)\n"
     text += "Definition gen_tt_min_dim : N := %d.\n" % out["tt_min_dim"]
     text += "(* slab_router.rs put, embedding arm: a value without a slab-sized _embedding vector drops the key's old slab vector *)\n"
